@@ -433,7 +433,60 @@ def r4(ctx):
         raise AnalysisBroken('C07.R4: only %d acceptance points behind floating range tests found' % ninst)
 
 
+def r6(ctx):
+    ctx.rule('C07.R6', 'strtoul() skips leading white space and accepts a minus sign (the value is negated modulo 2^64), so a text '
+             'parsed as unsigned is accepted only after a search for "-" in the whole input came back empty: the conversion '
+             'of every strtoul result in the field input parsers is dominated by find(\'-\') == npos on the input string '
+             '(a test of the first character alone lets " -18446744073709551615" through as 1); tokens that were split at '
+             '"-" cannot contain one', minimum=2)
+    fb = ctx.fb
+    n = 0
+    import re
+    for fn in fb.functions:
+        if not in_scope(fn) or not fn.blocks:
+            continue
+        calls = [c for c in fn.all('CallExpr') if fn.nodes[c].get('callee') in ('strtoul', 'strtoull')]
+        if not calls:
+            continue
+        split_at_minus = any((fn.nodes[c].get('callee') or '').endswith('getline') and len(fn.nodes[c].get('args', [])) >= 3 and
+                             fn.val(fn.nodes[c]['args'][2]) == 45 for c in fn.all('CallExpr'))
+        for c in calls:
+            # the local receiving the result and its conversion to the 32 bit value
+            res = [d for nid, d, rhs, op, lhs in fn.assignments() if rhs is not None and fn.strip(rhs, casts=True) == c and d]
+            if not res:
+                continue
+            rname = res[0].split(':')[-1]
+            uses = [nid for nid, v in sorted(fn.nodes.items()) if v.get('ck') == 'IntegralCast' and v.get('sw', 0) > v.get('w', 99) and
+                    any(fn.nodes[x].get('k') == 'DeclRefExpr' and fn.nodes[x].get('decl') == res[0] for x in fn.walk(nid))]
+            for u in uses:
+                n += 1
+                ctx.touch(fn)
+                if split_at_minus:
+                    ctx.ob('C07.R6', fn, u, True, 'unsigned parse of %s in %s' % (rname, fn.name.split('::')[-1]),
+                           'the token was split at "-" and cannot contain one', nontrivial=False)
+                    continue
+                atoms = set()
+                for b in fn.blocks.values():
+                    if b.cond is not None and len(b.succs) == 2:
+                        for j in (0, 1):
+                            for a in fn.norm_atom(fn.effective_cond(b.id), j == 0):
+                                atoms.add(a[0])
+                alts = [(k, True) for k in atoms if re.match(r'^\(\w+\.find(_first_of)?\(#45(,#0)?\) == #18446744073709551615\)$', k) or
+                        re.match(r'^\((memchr|strchr)\(\w+,#45.*\) == #0\)$', k)]
+                # nothing was consumed (end pointer == start): rejected as invalid number right afterwards
+                endp = fn.outarg(fn.nodes[c]['callee'], 1)
+                start = fn.key(fn.nodes[c]['args'][0])
+                if endp:
+                    alts += [('(%s == %s)' % (endp, start), True), ('(%s == %s)' % (start, endp), True)]
+                ok = any('#45' in k for k, p in alts) and fn.needs_one_of(u, alts)
+                ctx.ob('C07.R6', fn, u, ok, 'unsigned parse of %s in %s' % (rname, fn.name.split('::')[-1]),
+                       'conversion reached only if no "-" occurs anywhere in the input: %s' % ok)
+    if n < 2:
+        raise AnalysisBroken('C07.R6: only %d conversions of strtoul results found' % n)
+
+
 def run(ctx):
+    r6(ctx)
     r1(ctx)
     r2(ctx)
     r4(ctx)
